@@ -74,7 +74,8 @@ def hand_specs():
 # Minimal inputs for breakages of the generator that the `rt` preset steers away from (reported by the author of the
 # spec generator and re-found here). Each must stay reachable: they are always run. Several have been repaired in the
 # tree under test since (alias order below List / Map / ?, alias validator names, three-namespace cycles - now refused
-# by the compiler); those stay as regression inputs.
+# by the compiler; string defaults with blanks, parameterless annotation types, union-tag and Timestamp route attributes,
+# class aliases and subtype roots whose names fmt_class changes); those stay as regression inputs.
 DEFECT_SEEDS = [
     ('string-default-with-blank', [('n.stone', 'namespace n\nstruct S\n    f String = "a b"\n')]),
     ('annotation-type-without-params', [('n.stone', 'namespace n\nannotation_type T\n    "doc"\n')]),
@@ -95,6 +96,10 @@ DEFECT_SEEDS = [
                                ('b.stone', 'namespace nb\nimport nc\nstruct B\n    f nc.C\n'),
                                ('c.stone', 'namespace nc\nimport na\nstruct C\n    f na.A\n')]),
     ('route-named-bv', [('n.stone', 'namespace n\nroute bv(Void, Void, Void)\nroute zz(Void, Void, Void)\n')]),
+    ('route-attr-union-foreign-namespace', [
+        ('stone_cfg.stone', 'namespace stone_cfg\nimport m\nstruct Route\n    mode m.U = x\n'),
+        ('m.stone', 'namespace m\nunion U\n    x\n    y\n'),
+        ('f.stone', 'namespace files\nroute r(Void, Void, Void)\n    attrs\n        mode = y\n')]),
     ('namespace-named-bb', [('bb.stone', 'namespace bb\nstruct S\n    f String\n'),
                             ('n.stone', 'namespace n\nimport bb\nstruct T\n    f bb.S\n')]),
     ('alias-named-like-validator', [('n.stone', 'namespace n\nstruct Foo\n    f String\nalias Foo_validator = Foo\n'
@@ -192,7 +197,7 @@ def _ty(t):
 def _attr_kind(v):
     from stone.ir.data_types import TagRef
     if isinstance(v, TagRef):
-        return 'tagRef'
+        return ['tagRef', _ty(v.union_data_type), v.tag_name]
     if isinstance(v, (datetime.datetime, datetime.date)):
         return 'timestamp'
     return 'plain'
@@ -251,15 +256,18 @@ def _chain(node):
 
 
 class _Reducer:
-    def __init__(self):
+    def __init__(self, package_modules=()):
+        self.package_modules = set(package_modules)   # modules of the generated package (a reference `m.X` to one of
+        self.bound = set()                            # them is module-qualified even when `m` was never imported)
+        self.runtime = set(RUNTIME_NAMES)   # `bb`, `bv`, and `datetime` once the module has imported it
         self.modules = set()      # local names bound by `from pkg import m`
         self.classes = set()      # generated classes defined so far
 
     def ref(self, root, attrs):
         """(mod, name, attr) or None for runtime names / builtins"""
-        if root in RUNTIME_NAMES or (root in _BUILTINS and root not in self.classes and root not in self.modules):
+        if root in self.runtime or (root in _BUILTINS and root not in self.classes and root not in self.modules):
             return None
-        if root in self.modules and attrs:
+        if attrs and (root in self.modules or (root in self.package_modules and root not in self.bound)):
             return (root, attrs[0], '.'.join(attrs[1:]) or None)
         return (None, root, '.'.join(attrs) or None)
 
@@ -275,22 +283,10 @@ class _Reducer:
             return
         if isinstance(node, ast.Call):
             f = node.func
-            if isinstance(f, ast.Name) and f.id == 'TagRef' and node.args and isinstance(node.args[0], ast.Call):
-                # a printed `TagRef(Union('ns.U', [UnionField(...), ...]), 'tag')`: the model tracks the three
-                # constructor names every such text starts with (a spec may itself define a type called TagRef)
-                out.append((None, 'TagRef', None))
-                if node.args and isinstance(node.args[0], ast.Call) and isinstance(node.args[0].func, ast.Name):
-                    inner = node.args[0]
-                    out.append((None, inner.func.id, None))
-                    if len(inner.args) > 1 and isinstance(inner.args[1], ast.List):
-                        for e in inner.args[1].elts:
-                            if isinstance(e, ast.Call) and isinstance(e.func, ast.Name):
-                                out.append((None, e.func.id, None))
-                return
             ch = _chain(f) if isinstance(f, (ast.Name, ast.Attribute)) else None
             if ch is not None:
                 root, attrs = ch
-                if isinstance(f, ast.Attribute) and root not in RUNTIME_NAMES:
+                if isinstance(f, ast.Attribute) and root not in self.runtime:
                     attrs = attrs[:-1]          # a method call: the object is what is evaluated
                 r = self.ref(root, attrs)
                 if r is not None:
@@ -323,6 +319,9 @@ class _Reducer:
                     self.modules.add(name)
                     out.append(('imp', name))
                 continue
+            if isinstance(node, ast.Import) and [al.name for al in node.names] == ['datetime']:
+                self.runtime.add('datetime')                   # runtime preamble of a module with Timestamp attributes
+                continue
             if isinstance(node, ast.ClassDef):
                 base = None
                 if node.bases:
@@ -345,6 +344,7 @@ class _Reducer:
                     else:
                         body.append('?' + type(b).__name__)
                 self.classes.add(node.name)
+                self.bound.add(node.name)
                 out.append(('cls', node.name, base, tuple(body), ctor))
                 continue
             if isinstance(node, ast.Assign) and len(node.targets) == 1:
@@ -364,6 +364,8 @@ class _Reducer:
                     if vch is not None:
                         copy = self.ref(*vch)
                 self.loads(node.value, uses)
+                if not attrs:
+                    self.bound.add(root)
                 out.append(('assign', root, '.'.join(attrs) or None, copy, tuple(sorted(set(uses), key=_refkey))))
                 continue
             if isinstance(node, ast.Expr):
@@ -379,8 +381,8 @@ def _refkey(r):
     return tuple('' if x is None else x for x in r)
 
 
-def reduce_module(text):
-    return _Reducer().reduce(text)
+def reduce_module(text, package_modules=()):
+    return _Reducer(package_modules).reduce(text)
 
 
 def model_stmt(j):
@@ -465,9 +467,14 @@ def classify(pk, stage, exc, text):
         m = _NAME_RE.search(text)
         missing = m.group(1) if m else None
         from stone.ir.data_types import TagRef
-        if missing in ('TagRef', 'Union', 'UnionField') and any(
-                isinstance(v, TagRef) for ns in api.namespaces.values() for r in ns.routes for v in (r.attrs or {}).values()):
+        tag_attrs = [(ns, v) for ns in api.namespaces.values() for r in ns.routes for v in (r.attrs or {}).values()
+                     if isinstance(v, TagRef)]
+        if missing in ('TagRef', 'Union', 'UnionField') and tag_attrs:
             return 'tagref-route-attr'
+        for ns, v in tag_attrs:
+            uns = v.union_data_type.namespace
+            if uns is not ns and missing == uns.name and uns not in ns.get_imported_namespaces(consider_annotation_types=True):
+                return 'route-attr-union-namespace-not-imported'
         if missing == 'datetime':
             return 'timestamp-route-attr'
         if 'partially initialized module' in text or (exc == 'AttributeError' and import_graph_cyclic(api)):
@@ -827,16 +834,23 @@ def introspect(ck, pk, n_values):
             for an in (r._ast_node.attrs or []):
                 given[an.name] = an.value
             want_attrs = {}
-            judged = True
+            skip = set()       # attributes whose value is not compared (Timestamp / Bytes / unknown literal kinds)
             for f in (schema.fields if schema is not None else []):
                 if f.name in given:
                     val = given[f.name]
-                    if val is not None and not isinstance(val, (bool, int, float, str)):
-                        judged = False
                     from stone.ir import Timestamp, Bytes
+                    from stone.ir.data_types import TagRef
                     inner = f.data_type.data_type if isinstance(f.data_type, Nullable) else f.data_type
                     if isinstance(inner, (Timestamp, Bytes)):
-                        judged = False
+                        skip.add(f.name)
+                    elif val is not None and not isinstance(val, (bool, int, float, str)):
+                        tag = getattr(val, 'tag', None)
+                        if isinstance(tag, str) and isinstance(r.attrs.get(f.name), TagRef):
+                            val = r.attrs[f.name]      # a union tag: compared by its tag name below
+                            if val.tag_name != tag:
+                                skip.add(f.name)
+                        else:
+                            skip.add(f.name)
                     want_attrs[f.name] = val
                 elif f.has_default:
                     want_attrs[f.name] = f.default
@@ -844,10 +858,16 @@ def introspect(ck, pk, n_values):
                     want_attrs[f.name] = None
             if not isinstance(obj.attrs, dict) or set(obj.attrs) != set(want_attrs):
                 bad('route-attrs-keys', where, '%r != %r' % (sorted(obj.attrs) if isinstance(obj.attrs, dict) else obj.attrs, sorted(want_attrs)))
-            elif judged:
+            else:
                 from stone.ir.data_types import TagRef
                 for k, wv in want_attrs.items():
+                    if k in skip:
+                        continue
                     if isinstance(wv, TagRef):
+                        gv = obj.attrs[k]
+                        m_ = getattr(gv, 'is_' + fmt_func(wv.tag_name), None)
+                        if not isinstance(gv, bb.Union) or not callable(m_) or not m_():
+                            bad('route-attrs-value', '%s attr %s' % (where, k), repr(gv))
                         continue
                     gv = obj.attrs[k]
                     if not (gv == wv and (isinstance(gv, bool) == isinstance(wv, bool))):
@@ -906,7 +926,7 @@ def correspondence(ck, pk, import_results):
         return None
     model = {m: [model_stmt(s) for s in stmts] for m, stmts in rep['modules']}
     for mod in pk.module_names():
-        real = reduce_module(open(pk.path_of(mod), encoding='utf-8').read())
+        real = reduce_module(open(pk.path_of(mod), encoding='utf-8').read(), pk.module_names())
         got = model.get(mod)
         ck.case(('stmts', pk.label, mod, len(real)))
         ck.hist('c09.statements_per_module', min(len(real) // 25 * 25, 300))
